@@ -15,6 +15,9 @@ pub mod lazyvalue;
 pub mod parser;
 pub mod serde;
 pub mod value;
+#[cfg(sonic_rs_verif)]
+#[doc(hidden)]
+pub mod verif;
 pub mod writer;
 
 // re-export FastStr
